@@ -1,7 +1,8 @@
 (* Model of tower-resilience-cache: Cache::call (src/lib.rs), CacheStore (src/store.rs),
    the three EvictionStore containers (src/eviction.rs; LruStore over lru 0.16's
    LruCache::get/push/pop) and private vs shared stores (src/layer.rs, src/shared_layer.rs).
-   Executable; no proofs here.  Time unit: milliseconds.
+   Executable; no proofs here.  Time is unit-free in the step function; the script
+   interface (bottom of this file) counts microseconds.
 
    A store is ONE list of entries whose order carries what the containers keep in
    their own structures:
@@ -225,24 +226,40 @@ Fixpoint trace (c : cfg) (s : st) (evs : list ev) : list obs :=
   end.
 
 (* ---- script interface ----
-   script = [policy (0 LRU, 1 LFU, 2 FIFO); max_size; ttl ms (-1 none); shared (0 private, else shared);
-             n callers; m events; (op a b)*m; oracle*m]
-     op 0 = Call a on service b/8 with key b mod 8 (0 <= b < 16)
-        1 = Poll a   2 = Drop a   3 = Advance a ms
+   Time unit of the script interface: MICROSECONDS (the event `Advance d` and `ttl` are unit-free).
+   script = [policy (0 LRU, 1 LFU, 2 FIFO); max_size; ttl (-1 none); sh; n callers; m events; (op a b)*m; oracle*m]
+     sh mod 4: 0 private (CacheLayer, one store per layer() call), 1 SharedCacheLayer::builder,
+               2 and 3 CacheLayer::shared();
+     sh / 4 odd: the ttl field is in microseconds, otherwise in milliseconds
+     op 0 = Call a on service b/8 with key b mod 8 (0 <= b < 16), through a fresh clone of the service
+        5 = Call a with key b mod 128 (< 120) on service (b/128) mod 2, 0 <= b < 512; b/256 = 1: through the
+            long-lived service value itself instead of a fresh clone (no difference in the model:
+            Cache::clone shares the store and a Cache value has no other state)
+        1 = Poll a   2 = Drop a
+        3 = Advance a ms (0..100000)      6 = Advance a microseconds (0..10^12)
         4 = Complete a b (b > 0: Ok b, b = 0: Err, b < 0: panic)
      anything else / caller id out of range = Nop (still one trace record)
      oracle j: key that left the store during event j of the implementation run (-1 none);
                read only when an LFU insert has to evict
    trace = per event [r; value; inner calls started; inner calls in flight;
-                      listener events (+64: bad oracle); present keys of store 0; of store 1] *)
+                      listener events (+64: bad oracle);
+                      keys present in store 0; in store 1      (bit k = key k; harness: live key instances)
+                      values present in store 0; in store 1    (bit k = a response stored under key k;
+                                                                harness: live response instances)] *)
+Definition clampz (lo hi x : Z) : Z := Z.max lo (Z.min hi x).
+
 Definition ev_of (n : nat) (t : Z * Z * Z) (orc : Z) : ev :=
   let '(op, a, b) := t in
-  let i := Z.to_nat a in
-  if op =? 3 then Advance a else
+  if op =? 3 then Advance (1000 * clampz 0 100000 a) else
+  if op =? 6 then Advance (clampz 0 1000000000000 a) else
   if (a <? 0) || (Z.of_nat n <=? a) then Nop else
+  let i := Z.to_nat a in     (* a < n: small (and never computed for the arguments of an Advance) *)
   if op =? 0 then
     (if (b <? 0) || (16 <=? b) then Nop
      else if b <? 8 then Call i 0%nat b else Call i 1%nat (b - 8)) else
+  if op =? 5 then
+    (if (b <? 0) || (512 <=? b) || (120 <=? b mod 128) then Nop
+     else Call i (Z.to_nat ((b / 128) mod 2)) (b mod 128)) else
   if op =? 1 then Poll i orc else
   if op =? 2 then Drop i else
   if op =? 4 then Complete i (if 0 <? b then OOk b else if b =? 0 then OErr else OPanic) else Nop.
@@ -258,25 +275,49 @@ Definition is_running (x : cst) : bool := match x with Running _ _ => true | _ =
 Definition inflight (s : st) (n : nat) : Z :=
   Z.of_nat (length (filter (fun i => is_running (cs s i)) (seq 0 n))).
 
+(* one bit per entry (keys are unique in a store: Proof/Cache.v keys_nodup) *)
 Definition pres_mask (s : store) : Z :=
-  fold_left (fun acc k => match lookup (Z.of_nat k) s with
-                          | Some _ => acc + 2 ^ Z.of_nat k | None => acc end) (seq 0 8) 0.
+  fold_left (fun acc e => acc + 2 ^ e_key e) s 0.
 
-Fixpoint run_evs (c : cfg) (n : nat) (s : st) (evs : list ev) : list Z :=
+(* what one trace record shows of an observation and the state after it; `infl` = number of
+   callers 0..n-1 whose inner call is in flight after the event *)
+Definition render (infl : Z) (o : obs) (s' : st) : list Z :=
+  let m0 := pres_mask (stores s' 0%nat) in
+  let m1 := pres_mask (stores s' 1%nat) in
+  [o_r o; o_val o; match o_started o with Some _ => 1 | None => 0 end; infl;
+   o_evt o + (if o_bad o then 64 else 0); m0; m1; m0; m1].
+
+(* an event changes the state of at most one caller, so the in-flight count is maintained
+   incrementally (Proof/Cache.v inflight_step: it is `inflight` of the state after the event) *)
+Definition ev_caller (e : ev) : option nat :=
+  match e with
+  | Call i _ _ | Poll i _ | Drop i | Complete i _ => Some i
+  | _ => None
+  end.
+
+Definition b2z (b : bool) : Z := if b then 1 else 0.
+
+Definition infl_delta (n : nat) (s s' : st) (e : ev) : Z :=
+  match ev_caller e with
+  | Some i => if (i <? n)%nat then b2z (is_running (cs s' i)) - b2z (is_running (cs s i)) else 0
+  | None => 0
+  end.
+
+Fixpoint run_evs (c : cfg) (n : nat) (s : st) (infl : Z) (evs : list ev) : list Z :=
   match evs with
   | [] => []
   | e :: rest =>
     let '(s', o) := step c s e in
-    [o_r o; o_val o; match o_started o with Some _ => 1 | None => 0 end; inflight s' n;
-     o_evt o + (if o_bad o then 64 else 0); pres_mask (stores s' 0%nat); pres_mask (stores s' 1%nat)]
-      ++ run_evs c n s' rest
+    let infl' := infl + infl_delta n s s' e in
+    render infl' o s' ++ run_evs c n s' infl' rest
   end.
 
 Definition cfg_of (sc : list Z) : cfg :=
   {| pol := if zn sc 0 =? 1 then Lfu else if zn sc 0 =? 2 then Fifo else Lru;
      max_size := Z.to_nat (zn sc 1);
-     ttl := if zn sc 2 <? 0 then None else Some (zn sc 2);
-     shared := negb (zn sc 3 =? 0) |}.
+     ttl := if zn sc 2 <? 0 then None
+            else Some (if Z.odd (zn sc 3 / 4) then zn sc 2 else 1000 * zn sc 2);
+     shared := negb (zn sc 3 mod 4 =? 0) |}.
 
 Definition run_script (sc : list Z) : list Z :=
   let c := cfg_of sc in
@@ -284,4 +325,4 @@ Definition run_script (sc : list Z) : list Z :=
   let m := Z.to_nat (zn sc 5) in
   let body := skipn 6 sc in
   let evs := evs_of n (chunk3 (firstn (3 * m)%nat body)) (skipn (3 * m)%nat body) in
-  run_evs c n (init c) evs.
+  run_evs c n (init c) 0 evs.
